@@ -52,7 +52,11 @@ def main():
                               {"prog": x["prog"], "how": x["how"], "text": x["text"], "error": x["msg"]})
             if x["status"] == "ok":
                 if not x["same_text"]:
-                    rep.violation({"layer": "reparse", "what": "printed form changed", "how": x["how"].split("(")[0]},
+                    import re as _re
+                    # the only difference is '-0' read back as '0'?  (unary minus of the literal 0, e.g. '-i' unrolled at i = 0)
+                    only_neg_zero = _re.sub(r"(?<![\w.)\]])-0(?![\w.])", "0", x["text"]) == x["text2"]
+                    rep.violation({"layer": "reparse", "what": "printed form changed", "how": x["how"].split("(")[0],
+                                   "fact_only_negative_zero": only_neg_zero},
                                   {"prog": x["prog"], "how": x["how"], "text": x["text"], "text2": x["text2"]})
                 if "unit" in x:
                     units.append(x["unit"])
